@@ -329,7 +329,8 @@ fn run_case(c: &Case) -> CaseResult {
         let mut open = false;
         let mut epoch = 0u32;
         let mut accepted: HashMap<bool, Vec<(u64, u32)>> = HashMap::new();
-        let mut sizes_sent: HashMap<u64, usize> = HashMap::new();
+        // sync sends answered NoConnection: (tag, epoch) — nothing sent later through the sync mode in that epoch may arrive
+        let mut no_connection: Vec<(u64, u32)> = Vec::new();
         for o in history.iter().filter(|o| o.node == s) {
             match &o.kind {
                 ObsKind::NotifOpened { peer, .. } if *peer == peers[r] => open = true,
@@ -345,6 +346,9 @@ fn run_case(c: &Case) -> CaseResult {
                                 clog_seen = true;
                             }
                             ensure!(why == "clogged" || why == "NoConnection", "C12/synchronous-send-unexpected-answer", "node {s} tag {tag:#x}: {why}");
+                            if why == "NoConnection" && open {
+                                no_connection.push((*tag, epoch));
+                            }
                         }
                     } else {
                         for (tag, why) in refused {
@@ -361,7 +365,6 @@ fn run_case(c: &Case) -> CaseResult {
                 _ => {}
             }
         }
-        let _ = &mut sizes_sent;
         // receiver side
         let mut received: HashMap<bool, Vec<u64>> = HashMap::new();
         for o in history.iter().filter(|o| o.node == r) {
@@ -400,6 +403,16 @@ fn run_case(c: &Case) -> CaseResult {
             let got: HashSet<u64> = rv.iter().cloned().collect();
             ensure!(got.len() == rv.len(), "C12/notification-delivered-twice", "node {s} -> {r} {mode}");
             let acc = accepted.get(&sync).cloned().unwrap_or_default();
+            if sync {
+                for (bad, e) in &no_connection {
+                    if let Some((t, _)) = acc.iter().find(|(t, e2)| e2 == e && t > bad && got.contains(t)) {
+                        fail!(
+                            "C12/synchronous-send-answered-no-connection-on-a-live-stream",
+                            "node {s} -> {r}: tag {bad:#x} was refused with NoConnection, yet the later tag {t:#x} of the same open period was delivered"
+                        );
+                    }
+                }
+            }
             // last delivered tag per epoch
             let mut last_delivered: HashMap<u32, u64> = HashMap::new();
             for (t, e) in &acc {
